@@ -444,7 +444,21 @@ class VersionConverter(object):
             elem_map[named_path] = 1
         else:
             elem_map[named_path] += 1
-            name.text += "-" + str(elem_map[named_path])
+
+            # The new name must not be the name of another sibling:
+            # use the next number that is still free.
+            entity = name.getparent()
+            used = []
+            for sibling in entity.getparent().iterchildren(entity.tag):
+                sibling_name = sibling.find("name")
+                if sibling is not entity and sibling_name is not None:
+                    used.append(sibling_name.text)
+
+            index = elem_map[named_path]
+            while "%s-%s" % (name.text, index) in used:
+                index += 1
+
+            name.text += "-" + str(index)
 
     def _check_add_ids(self, tree):
         """
